@@ -68,7 +68,9 @@ FinalClauses ==
                               = {<<QOf(m[1]), QOf(m[2])>> : m \in PCfg.measures} /\ Len(measures) = Cardinality(PCfg.measures),
        time_signatures  |-> at("time") = {<<QOf(e[1]), e[2], e[3], 0>> : e \in PCfg.ts},
        key_signatures   |-> at("key") = {<<QOf(e[1]), e[2], 0, 0>> : e \in PCfg.ks},
-       clefs            |-> at("clef") = {<<QOf(e[1]), e[2], e[3], e[4]>> : e \in PCfg.clefs}]
+       clefs            |-> at("clef") = {<<QOf(e[1]), e[2], e[3], e[4]>> : e \in PCfg.clefs},
+       \* every staff a note is written on has been declared
+       staves_declared  |-> \A i \in 1..Len(notes) : \A j \in 1..Len(attrs) : attrs[j].kind = "staves" => notes[i].staff <= attrs[j].a]
 Failing(rec) == {c \in DOMAIN rec : ~rec[c]}
 Report == /\ (Done => PrintT(<<"VERDICT", Batch[tid].cid, Failing(FinalClauses), bad>>))
           /\ ((~Done /\ ~ENABLED TNext) => PrintT(<<"STUCK", Batch[tid].cid, l>>))
